@@ -17,6 +17,7 @@ import (
 	"go/constant"
 	"go/token"
 	"go/types"
+	"math/big"
 	"sort"
 	"strings"
 )
@@ -43,10 +44,10 @@ type oIface struct {
 	styp   types.Type // static type of the value when it was converted at a call site (may be nil)
 }
 type oOpaque struct {
-	name    string
-	bounds  *oStruct // what Bounds() returns
-	isError bool     // an error value (implements the error interface)
-	isRuntimeError bool // a run-time panic value (also implements runtime.Error)
+	name           string
+	bounds         *oStruct // what Bounds() returns
+	isError        bool     // an error value (implements the error interface)
+	isRuntimeError bool     // a run-time panic value (also implements runtime.Error)
 }
 type oFunc struct {
 	lit  *ast.FuncLit
@@ -108,6 +109,8 @@ func showVal(v oval) string {
 		return showSlice(x)
 	case oHost:
 		return "<" + x.kind + " " + x.key + ">"
+	case oSym:
+		return "⟨" + x.p.canon() + "⟩"
 	}
 	return fmt.Sprint(v)
 }
@@ -151,6 +154,20 @@ type oInterp struct {
 	// order, then the package's init functions)
 	globals  map[types.Object]*oval
 	initDone map[*types.Package]bool
+	// symbolic: arithmetic on floats yields normal-form polynomials (ordersym.go) instead of ⊤
+	symbolic bool
+	maxLoop  int // iterations allowed per loop (default 64)
+	// valuation, when set, chooses the branch at comparisons the symbolic domain cannot decide; the
+	// conditions so assumed are collected in pathConds
+	valuation map[string]float64
+	pathConds []string
+}
+
+func (it *oInterp) loopLimit() int {
+	if it.maxLoop > 0 {
+		return it.maxLoop
+	}
+	return 64
 }
 
 type oCtl int
@@ -169,13 +186,13 @@ type oFrame struct {
 	pendingLabel string
 	pendingTok   token.Token
 	defers       []func()
-	it      *oInterp
-	info    *types.Info
-	env     *oEnv
-	results []oval
-	resVars []*types.Var
-	why     string
-	depth   int
+	it           *oInterp
+	info         *types.Info
+	env          *oEnv
+	results      []oval
+	resVars      []*types.Var
+	why          string
+	depth        int
 }
 
 // zero value for a type in the fragment.
@@ -183,6 +200,9 @@ func (it *oInterp) zero(t types.Type) oval {
 	switch u := t.Underlying().(type) {
 	case *types.Basic:
 		if u.Info()&types.IsFloat != 0 {
+			if it.symbolic {
+				return oSym{poly{}}
+			}
 			return oTop{"zero float (0 is not an input term)"}
 		}
 		if u.Info()&types.IsInteger != 0 {
@@ -477,8 +497,8 @@ func (fr *oFrame) stmt(s ast.Stmt) oCtl {
 			}
 		}
 		for iter := 0; ; iter++ {
-			if iter > 64 {
-				return fr.abort("loop at %s does not terminate within 64 abstract iterations", fr.it.p.Position(s.Pos()))
+			if lim := fr.it.loopLimit(); iter > lim {
+				return fr.abort("loop at %s does not terminate within %d abstract iterations", fr.it.p.Position(s.Pos()), lim)
 			}
 			if s.Cond != nil {
 				cv := fr.eval(s.Cond)
@@ -661,6 +681,18 @@ func (fr *oFrame) assign(s *ast.AssignStmt) oCtl {
 				}
 			}
 		}
+		if fr.it.symbolic && len(s.Lhs) == 1 && len(s.Rhs) == 1 {
+			if lp, ok := symOf(fr.eval(s.Lhs[0])); ok {
+				if rp, ok := symOf(fr.eval(s.Rhs[0])); ok {
+					op := map[token.Token]token.Token{token.ADD_ASSIGN: token.ADD, token.SUB_ASSIGN: token.SUB, token.MUL_ASSIGN: token.MUL, token.QUO_ASSIGN: token.QUO}[s.Tok]
+					if t := fr.info.TypeOf(s.Lhs[0]); t != nil && isFloatT(t) {
+						if p, ok := symBinop(op, lp, rp); ok {
+							return fr.store(s.Lhs[0], symVal(p), false)
+						}
+					}
+				}
+			}
+		}
 		// op-assign on floats is arithmetic: the target becomes ⊤
 		for _, l := range s.Lhs {
 			if c := fr.store(l, oTop{"arithmetic " + s.Tok.String()}, false); c != oNormal {
@@ -756,6 +788,14 @@ func oEqual(a, b oval) (eq bool, ok bool) {
 		if y, ok := b.(oFloat); ok {
 			return x.r == y.r, true
 		}
+		if y, ok := b.(oSym); ok {
+			if p, ok := symOf(x); ok {
+				if eq, ok := symCompare(token.EQL, p, y.p); ok {
+					return eq, true
+				}
+			}
+			return false, false
+		}
 	case oBool:
 		if y, ok := b.(oBool); ok {
 			return x == y, true
@@ -798,6 +838,13 @@ func oEqual(a, b oval) (eq bool, ok bool) {
 	case oHostFunc:
 		if _, ok := b.(oNil); ok {
 			return false, true
+		}
+	case oSym:
+		if q, ok := symOf(b); ok {
+			if eq, ok := symCompare(token.EQL, x.p, q); ok {
+				return eq, true
+			}
+			return false, false
 		}
 	case oMap:
 		if _, ok := b.(oNil); ok {
@@ -953,12 +1000,22 @@ func (fr *oFrame) eval(e ast.Expr) oval {
 			return oBool(constant.BoolVal(tv.Value))
 		case constant.Int:
 			if b, ok := tv.Type.Underlying().(*types.Basic); ok && b.Info()&types.IsFloat != 0 {
+				if fr.it.symbolic {
+					if p, ok := symFromConstant(tv.Value); ok {
+						return oSym{p}
+					}
+				}
 				return oTop{"float constant " + tv.Value.String()}
 			}
 			if i, ok := constant.Int64Val(tv.Value); ok {
 				return oInt(i)
 			}
 		case constant.Float:
+			if fr.it.symbolic {
+				if p, ok := symFromConstant(tv.Value); ok {
+					return oSym{p}
+				}
+			}
 			return oTop{"float constant " + tv.Value.String()}
 		case constant.String:
 			str := constant.StringVal(tv.Value)
@@ -1055,6 +1112,15 @@ func (fr *oFrame) eval(e ast.Expr) oval {
 			}
 			return oTop{"address-of"}
 		case token.SUB:
+			v := fr.eval(x.X)
+			if i, ok := v.(oInt); ok {
+				return -i
+			}
+			if fr.it.symbolic {
+				if p, ok := symOf(v); ok {
+					return symVal(p.scale(big.NewRat(-1, 1)))
+				}
+			}
 			return oTop{"negation"}
 		}
 	case *ast.BinaryExpr:
@@ -1115,6 +1181,21 @@ func (fr *oFrame) eval(e ast.Expr) oval {
 					return oBool(li >= ri)
 				}
 			}
+			if fr.it.symbolic {
+				if lp, ok := symOf(l); ok {
+					if rp, ok := symOf(r); ok {
+						if b, ok := symCompare(x.Op, lp, rp); ok {
+							return oBool(b)
+						}
+						if fr.it.valuation != nil {
+							if b, ok := symCompareAt(x.Op, lp, rp, fr.it.valuation); ok {
+								fr.it.pathConds = append(fr.it.pathConds, fmt.Sprintf("%s %s %s is %v", lp.canon(), x.Op, rp.canon(), b))
+								return oBool(b)
+							}
+						}
+					}
+				}
+			}
 			return oTop{"comparison of " + showVal(l) + " and " + showVal(r)}
 		default:
 			lv := fr.eval(x.X)
@@ -1122,6 +1203,17 @@ func (fr *oFrame) eval(e ast.Expr) oval {
 				if ri, ok := fr.eval(x.Y).(oInt); ok {
 					if v, ok := intBinop(x.Op, li, ri); ok {
 						return v
+					}
+				}
+			}
+			if fr.it.symbolic {
+				if lp, ok := symOf(lv); ok {
+					if rp, ok := symOf(fr.eval(x.Y)); ok {
+						if t := fr.info.TypeOf(x); t != nil && isFloatT(t) {
+							if p, ok := symBinop(x.Op, lp, rp); ok {
+								return symVal(p)
+							}
+						}
 					}
 				}
 			}
@@ -1221,6 +1313,9 @@ func (fr *oFrame) call(call *ast.CallExpr) []oval {
 		if sl, ok := v.(oSlice); ok {
 			sl.typ = tv.Type
 			return one(sl)
+		}
+		if i, ok := v.(oInt); ok && fr.it.symbolic && isFloatT(tv.Type) {
+			return one(oSym{polyConst(big.NewRat(int64(i), 1))})
 		}
 		if _, isNil := v.(oNil); isNil {
 			if _, isSl := tv.Type.Underlying().(*types.Slice); isSl {
@@ -1372,6 +1467,24 @@ func (fr *oFrame) call(call *ast.CallExpr) []oval {
 					return one(a)
 				}
 				return one(b)
+			}
+		}
+		if fr.it.stub != nil {
+			if out, ok := fr.it.stub(f, nil, args); ok {
+				return out
+			}
+		}
+		if fr.it.symbolic && len(args) > 0 {
+			var ps []poly
+			for _, a := range args {
+				if p, ok := symOf(a); ok {
+					ps = append(ps, p)
+				}
+			}
+			if len(ps) == len(args) {
+				if p, ok := symMath(f.Name(), ps); ok {
+					return one(symVal(p))
+				}
 			}
 		}
 		return one(oTop{"math." + f.Name()})
@@ -1827,7 +1940,6 @@ func (fr *oFrame) runDefers() {
 	}
 	fr.defers = nil
 }
-
 
 func (fr *oFrame) allNamed() bool {
 	if len(fr.resVars) == 0 {
